@@ -568,6 +568,7 @@ func (r *Run) checkCut(P string) {
 	ok := true
 	// reference version: the value compared with element.ProtocolVersion
 	var ref ssa.Value
+	var refTerm *core.Term
 	for _, b := range g.Blocks {
 		for _, ins := range b.Instrs {
 			c, isC := ins.(*ssa.Call)
@@ -580,7 +581,13 @@ func (r *Run) checkCut(P string) {
 				if fc.Kind == "cmp" && fc.Op == "==" {
 					for _, pair := range [][2]*core.Term{{fc.A, fc.B}, {fc.B, fc.A}} {
 						if core.MatchTerm("$0[_].ProtocolVersion", pair[0], core.Bind{}) {
+							// (when the reference is itself read from the slice — its first element — the element of
+							// this iteration is the other side)
+							if core.MatchTerm("$0[0].ProtocolVersion", pair[0], core.Bind{}) && core.MatchTerm("$0[_].ProtocolVersion", pair[1], core.Bind{}) {
+								continue
+							}
 							found = true
+							refTerm = pair[1]
 							if v, isV := pair[1].Val.(ssa.Value); isV {
 								ref = v
 							}
@@ -608,7 +615,9 @@ func (r *Run) checkCut(P string) {
 		}
 	}
 	// reference fixed by the first element: ref is $0[0].ProtocolVersion, or a loop phi whose update edge is guarded by index == 0
-	if ref != nil {
+	if ref == nil && refTerm != nil && core.MatchTerm("$0[0].ProtocolVersion", refTerm, core.Bind{}) {
+		// the reference is read from the first element before the loop
+	} else if ref != nil {
 		okRef := false
 		if core.MatchTerm("$0[0].ProtocolVersion", gf.TB.Of(ref), core.Bind{}) {
 			okRef = true
@@ -643,6 +652,9 @@ func (r *Run) checkCut(P string) {
 			if sameLoopVar(core.RetOp(ri.Ret, 1), ref) {
 				okVer = true
 			}
+		}
+		if refTerm != nil && len(ri.Ret.Results) == 2 && gf.TB.Of(core.RetOp(ri.Ret, 1)).String() == refTerm.String() {
+			okVer = true
 		}
 	}
 	r.R.Check(okVer, P+".cut.version", "E13: the version returned with the batch is the reference version the elements were compared with", core.FuncName(g), r.where(g), "the batch must be processed under the version its operations were queued with", "returned version = reference", "returned version is another value")
@@ -883,7 +895,8 @@ func (r *Run) checkLockPairing(P string) {
 			}
 		}
 	}
-	r.R.Floor(P+".lock.pairing.floor", "instance floor", n, 6, "Lock/RLock calls in the queue package")
+	// (six on the pinned tree; two of them are textually identical read-locked length queries, so a merge of duplicates leaves five)
+	r.R.Floor(P+".lock.pairing.floor", "instance floor", n, 5, "Lock/RLock calls in the queue package")
 }
 
 // checkEnqueueFinal: once the queue has accepted the operation, Writer.Add reports success — an error reported after
